@@ -63,6 +63,7 @@ type Event struct {
 	SelN       int
 	SelDir     types.ChanDir
 	Blocking   bool
+	InGo       bool
 	Via        *CallInfo // the modelled call through which this closure was invoked
 	Results    []*Sym
 	Seq        int
@@ -109,7 +110,10 @@ type Config struct {
 	// Model gives library summaries for calls that invoke their function arguments.
 	Model func(in *Interp, st *State, ci *CallInfo) *Model
 	// ParamAbs presets abstract values for root parameters (by name).
-	ParamAbs  map[string]Abs
+	ParamAbs map[string]Abs
+	// InlineGo analyses `go func(){…}()` closures in place at the spawn point
+	// (events flagged InGo); a panic escaping the goroutine ends only the goroutine.
+	InlineGo  bool
 	MaxPaths  int
 	MaxVisits int
 	MaxDepth  int
@@ -136,6 +140,7 @@ type Frame struct {
 	running  int  // >0 while this frame's defers are running
 	via      *CallInfo
 	call     *CallInfo
+	inGo     bool
 }
 
 type outcome struct {
@@ -362,6 +367,9 @@ func (in *Interp) emit(st *State, fi int, e Event) {
 		if f.running > 0 {
 			e.InDefer = true
 		}
+		if f.inGo {
+			e.InGo = true
+		}
 	}
 	if e.Instr != nil && e.Pos == token.NoPos {
 		e.Pos = e.Instr.Pos()
@@ -385,6 +393,23 @@ func (in *Interp) enter(st *State, fn *ssa.Function, args, binds []*Sym, ci *Cal
 	}
 	st.frames = append(st.frames, fr)
 	in.exec(st, len(st.frames)-1, fn.Blocks[0], 0, nil)
+}
+
+// enterGo analyses a goroutine closure in place; whatever its outcome, the
+// spawning function continues.
+func (in *Interp) enterGo(st *State, ci *CallInfo, k func(*State)) {
+	fr := &Frame{fn: ci.Static, env: map[ssa.Value]*Sym{}, bindings: ci.Bindings, visits: map[*ssa.BasicBlock]int{}, call: ci, inGo: true}
+	fr.k = func(st *State, out outcome) {
+		st.panicking = false
+		k(st)
+	}
+	for i, p := range ci.Static.Params {
+		if i < len(ci.Args) && ci.Args[i] != nil {
+			fr.env[p] = ci.Args[i]
+		}
+	}
+	st.frames = append(st.frames, fr)
+	in.exec(st, len(st.frames)-1, ci.Static.Blocks[0], 0, nil)
 }
 
 func (in *Interp) leave(st *State, fi int, out outcome) {
@@ -637,6 +662,13 @@ func (in *Interp) exec(st *State, fi int, b *ssa.BasicBlock, idx int, pred *ssa.
 		case *ssa.Go:
 			ci := in.callInfo(st, fi, ins, &ins.Call)
 			in.emit(st, fi, Event{Kind: EvGo, Instr: ins, Call: ci})
+			if in.cfg.InlineGo && ci.Static != nil && ci.Static.Blocks != nil && ci.Static.Parent() != nil && len(st.frames) <= in.cfg.MaxDepth+2 {
+				next := i + 1
+				in.enterGo(st, ci, func(st *State) {
+					in.exec(st, fi, b, next, pred)
+				})
+				return
+			}
 		case *ssa.Defer:
 			ci := in.callInfo(st, fi, ins, &ins.Call)
 			fr.defers = append(fr.defers, deferred{ci})
